@@ -77,7 +77,7 @@ fn main() {
         if name == "put_object" {
             // the upload body is drained so that the replay sees how many bytes the backend gets and how the stream ends
             out.push_str(&format!(
-                "    async fn {name}(&self, req: s3s::S3Request<s3s::dto::{input}>) -> s3s::S3Result<s3s::S3Response<s3s::dto::{output}>> {{\n        self.record(\"{name}\", &req.credentials);\n        self.inputs.lock().unwrap().push(format!(\"{{:?}}\", req.input));\n        let mut n = 0usize; let mut end = String::from(\"clean\");\n        if let Some(mut b) = req.input.body {{ use futures::StreamExt; while let Some(x) = b.next().await {{ match x {{ Ok(bytes) => n += bytes.len(), Err(e) => {{ end = format!(\"error: {{e}}\"); break; }} }} }} }}\n        self.log.lock().unwrap().push(format!(\"put_object.body bytes={{n}} end={{end}} content_length={{:?}}\", req.input.content_length));\n        if end != \"clean\" {{ return Err(s3s::S3Error::with_message(s3s::S3ErrorCode::IncompleteBody, end)); }}\n        let mut ans = self.answer::<s3s::dto::{output}>(\"{name}\");\n        if let (Ok(r), Some((f, v))) = (ans.as_mut(), self.fill()) {{ if !fill_{output}(&mut r.output, &f, &v) {{ self.log.lock().unwrap().push(format!(\"fill-failed {{f}}\")); }} }}\n        ans\n    }}\n"
+                "    async fn {name}(&self, req: s3s::S3Request<s3s::dto::{input}>) -> s3s::S3Result<s3s::S3Response<s3s::dto::{output}>> {{\n        self.record(\"{name}\", &req.credentials);\n        self.inputs.lock().unwrap().push(format!(\"{{:?}}\", req.input));\n        let mut n = 0usize; let mut end = String::from(\"clean\"); let mut fnv: u64 = 0xcbf29ce484222325;\n        if let Some(mut b) = req.input.body {{ use futures::StreamExt; while let Some(x) = b.next().await {{ match x {{ Ok(bytes) => {{ n += bytes.len(); for y in bytes.iter() {{ fnv = (fnv ^ u64::from(*y)).wrapping_mul(0x100000001b3); }} }}, Err(e) => {{ end = format!(\"error: {{e}}\"); break; }} }} }} }}\n        self.log.lock().unwrap().push(format!(\"put_object.body bytes={{n}} end={{end}} content_length={{:?}} fnv={{fnv:016x}}\", req.input.content_length));\n        if end != \"clean\" {{ return Err(s3s::S3Error::with_message(s3s::S3ErrorCode::IncompleteBody, end)); }}\n        let mut ans = self.answer::<s3s::dto::{output}>(\"{name}\");\n        if let (Ok(r), Some((f, v))) = (ans.as_mut(), self.fill()) {{ if !fill_{output}(&mut r.output, &f, &v) {{ self.log.lock().unwrap().push(format!(\"fill-failed {{f}}\")); }} }}\n        ans\n    }}\n"
             ));
             n += 1;
             continue;
